@@ -239,8 +239,8 @@ def check_spinner_scenarios(ctx):
                 if len(later) != 1 or later[0][1][:1] != (sm.TIMEOUT,):
                     problems.add("the timeout call is not scheduled once with the given timeout")
                 # -- what run() leaves behind, whatever happened
-                if r.state.get("self._reactor.stop", sm.REAL_STOP) != sm.REAL_STOP:
-                    restore_stop.add(f"[{label}] reactor.stop is still {r.state.get('self._reactor.stop')!r} after run()")
+                if r.state.get("obj.reactor.stop", sm.REAL_STOP) != sm.REAL_STOP:
+                    restore_stop.add(f"[{label}] reactor.stop is still {r.state.get('obj.reactor.stop')!r} after run()")
                 if r.state.get("ev.stopped_for_good", False):
                     restore_stop.add(f"[{label}] the real reactor.stop ran while spinning: this reactor can never be started again")
                 if "reactor.run" in names:
@@ -316,7 +316,7 @@ def check_spinner_scenarios(ctx):
         touched = sorted({e[0] for e in log if e[0].startswith(("reactor.", "signal.", "user-function"))})
         if touched:
             problems.add(f"before refusing, run() already used {touched}")
-        if r.state.get("self._success") != ("sym", "stale-success") or r.state.get("self._junk") != ("tuple", OLD) or r.state.get("self._reactor.stop", sm.REAL_STOP) != sm.REAL_STOP:
+        if r.state.get("self._success") != ("sym", "stale-success") or r.state.get("self._junk") != ("tuple", OLD) or r.state.get("obj.reactor.stop", sm.REAL_STOP) != sm.REAL_STOP:
             problems.add("before refusing, run() already changed the spinner's state")
     ctx.check("R-STALE-JUNK-FIRST", "with uncleared junk run() raises StaleJunkError(junk) before touching reactor, signals or results", run_f, bool(res) and not problems,
               "; ".join(sorted(problems)), examined=len(res), construct=f"{Q}::stale-junk")
